@@ -57,15 +57,11 @@ var probeStarted atomic.Int64
 const stallExit = 3
 
 // probeLimit bounds one library call inside the worker. A call on an input of
-// at most a few KiB normally takes microseconds; one that exceeds the limit is
-// a stall (not judged by this property): the worker exits with stallExit so
-// that the parent can skip the probe without waiting for the case time-out.
-func probeLimit() time.Duration {
-	if os.Getenv("VERIF_TIER") == "thorough" {
-		return 10 * time.Second
-	}
-	return 1500 * time.Millisecond
-}
+// at most a few KiB takes microseconds; one that runs for 20 s (about a million
+// times longer, far beyond anything machine load explains) does not return in
+// any practical sense: the worker exits with stallExit and the parent reports
+// the probe (class "stall") unless a listed defect explains it.
+func probeLimit() time.Duration { return 20 * time.Second }
 
 // workerAS is the worker's own address-space limit (below the driver's 16 GiB):
 // an attacker-sized request above it is an immediate, cheap fatal error instead
@@ -216,13 +212,8 @@ type exchange struct {
 	tail     string
 }
 
-// caseTimeout bounds one request; a case normally takes milliseconds.
-func caseTimeout() time.Duration {
-	if evid.Thorough() {
-		return 60 * time.Second
-	}
-	return 20 * time.Second
-}
+// caseTimeout bounds one request (backstop behind the worker's own watchdog).
+func caseTimeout() time.Duration { return 90 * time.Second }
 
 func (w *worker) do(req *Request) exchange {
 	b, _ := json.Marshal(req)
@@ -322,11 +313,28 @@ func runCase(c Case, known []string) outcome {
 			return out
 		}
 		out.evals++
-		if ex.timedOut || ex.exit == stallExit {
-			// "never stalls" is not part of this property: recorded, not judged
-			out.labels["stalled-probe(not judged)."+ex.last.Group]++
+		if ex.died && ex.exit == -1 && !strings.Contains(ex.tail, "fatal error") && !strings.Contains(ex.tail, "panic") && !strings.Contains(ex.tail, "runtime:") {
+			// Killed by a signal without any report of the Go runtime: not a fault of the
+			// call but an external kill (the driver's time limit kills the whole process
+			// group, this process included). Wait for our own turn; if we are still alive
+			// the probe is recorded as not judged - never as a violation.
+			time.Sleep(5 * time.Second)
+			out.labels["worker-killed-externally(not judged)."+ex.last.Group]++
+			evid.Note("worker killed by an external signal during probe " + ex.last.ID + " (not judged)")
 			req.Skip = append(req.Skip, ex.last.ID)
 			continue
+		}
+		if ex.timedOut || ex.exit == stallExit {
+			f := &evid.Failure{Oracle: fmt.Sprintf("decoding is total: the call returns (probe %s %s, %d-byte input)", ex.last.ID, ex.last.Mut, ex.last.Len),
+				Observed: fmt.Sprintf("no return within %s", probeLimit()), Expected: "returns (value or error)", Class: "stall"}
+			if cls := knownClass(&c, ex.last, f); cls != "" && knownSet[cls] {
+				out.excl[cls]++
+				out.labels["excluded-failure."+ex.last.Group+".stall"]++
+				req.Skip = append(req.Skip, ex.last.ID)
+				continue
+			}
+			out.fail, out.probe = f, ex.last
+			return out
 		}
 		f := &evid.Failure{Oracle: "no fault (process survives the call): probe " + ex.last.ID + " " + ex.last.Mut, Observed: "worker process died: " + tailOf(ex.tail), Expected: "returns", Class: "fatal"}
 		if cls := knownClass(&c, ex.last, f); cls != "" && knownSet[cls] {
